@@ -251,6 +251,21 @@ pub fn templates() -> Vec<G> {
             out.push(G::Then(b(G::OrNot(b(dx.clone()))), b(j("c"))));
         }
     }
+    // the SAME label text at two levels, the inner label covering only some of the alternatives (and all of them)
+    for outer_ctx in [false, true] {
+        for inner_ctx in [false, true] {
+            let lab = |g: G, c: bool| G::Labelled(b(g), "L1".into(), c);
+            let partial = lab(G::Choice(vec![lab(j("a"), inner_ctx), j("b")]), outer_ctx);
+            let full = lab(G::Choice(vec![lab(j("a"), inner_ctx), lab(j("b"), inner_ctx)]), outer_ctx);
+            let deep = lab(G::Then(b(G::Or(b(lab(j("ab"), inner_ctx)), b(j("b")))), b(j("c"))), outer_ctx);
+            for x in [partial, full, deep] {
+                out.push(x.clone());
+                out.push(G::Then(b(x.clone()), b(j("c"))));
+                out.push(G::Choice(vec![G::Then(b(j("a")), b(j("c"))), x.clone()]));
+                out.push(G::Then(b(G::OrNot(b(x))), b(j("c"))));
+            }
+        }
+    }
     out.retain(wf);
     out
 }
